@@ -10,7 +10,7 @@ from vlib.util import call, expect_eq
 from vlib.props.c05 import expected as addr_expected, judge as addr_judge, KINDS
 
 PROPERTY_ID = "C14"
-OPTIMIZED = ['watch-only']   # clauses run a second time under `python -O` (assert statements stripped)
+OPTIMIZED = ['watch-only', 'invalid-child-agreement']   # clauses run a second time under `python -O` (assert statements stripped)
 RULE = ("full wallet from a seed; export node at a generated path of depth 0..5 (hardened and normal mixed); the export "
         "string under each of the three public versions of the wallet's network (exhaustive per case; all six over a "
         "run); watch-only Base/Paper wallet built from it after the full wallet has been used in the same process; 1..3 "
@@ -108,7 +108,11 @@ def check_case(case, ctx):
         if s != b58.encode_check(rexp.payload(v, False)):
             raise Violation("C14/export/string", "export string under version %#x differs from the reference" % v)
         tag = "watch-only %s from %s... (export depth %d)" % (cls.__name__, s[:4], len(case["export"]))
-        st_, WO = call(cls.from_extended_key, extended_key=s) if purpose == 49 else call(cls.from_extended_key, s)
+        if purpose == 84:
+            # built directly from the parsed node with the network flag passed positionally: (master, testnet)
+            st_, WO = call(lambda: cls(Pub.parse(s, testnet), testnet))
+        else:
+            st_, WO = call(cls.from_extended_key, extended_key=s) if purpose == 49 else call(cls.from_extended_key, s)
         if st_ == "exc":
             raise Violation("C14/import/raised", "%s: from_extended_key raised %r" % (tag, WO))
         if WO.watch_only is not True:
@@ -218,6 +222,42 @@ def classes_case(case):
             "paper" if case["paper"] else "base", "subs=%d" % len(case["subs"])]
 
 
+def gen_invalid(tier):
+    return st.fixed_dictionaries({"seed": S.seeds(16, 64), "testnet": st.booleans(), "i": S.normal_indexes(),
+                                  "kind": st.sampled_from(["n", "n+1", "max", "ge-n", "n-k", "valid"]), "u": st.integers(0, 2 ** 256 - 1)})
+
+
+def check_invalid_agreement(case, ctx):
+    """Whatever the (substituted) PRF returns for a normal child: the watch-only wallet yields that child exactly when
+    the full wallet does."""
+    from vlib import patch
+    BaseWallet, PaperWallet, Prv, Pub = _impl()
+    try:
+        rm = R.master(case["seed"])
+    except R.Invalid:
+        return
+    N_ = S.N
+    il = {"n": N_, "n+1": N_ + 1, "max": 2 ** 256 - 1, "ge-n": N_ + case["u"] % (2 ** 256 - N_), "n-k": (N_ - rm.k) % N_,
+          "valid": 1 + case["u"] % (N_ - 1)}[case["kind"]]
+    out = il.to_bytes(32, "big") + b"\x22" * 32
+    W = BaseWallet.from_bip39_seed_bytes(case["seed"] + S.case_salt(case, 4), case["testnet"])
+    WO = BaseWallet.from_extended_key(W.master.extended_public_key())
+    outcomes = []
+    for name, node in (("full", W.master), ("watch-only", WO.master)):
+        stub = patch.ScriptedPRF({j: out for j in range(6)})
+        with patch.prf(stub):
+            st_, ch = call(node.ckd, case["i"])
+        if not stub.calls:
+            ctx.count("prf-substitution-not-effective: not judged")
+            return
+        outcomes.append((name, st_, ch.public_key.sec() if st_ == "ok" else None))
+    (n1, s1, k1), (n2, s2, k2) = outcomes
+    if s1 != s2 or k1 != k2:
+        raise Violation("C14/public/invalid-child-disagreement", "child %d with PRF output IL=%#x (%s): the full wallet %s, the "
+                        "watch-only wallet %s" % (case["i"], il, case["kind"], "raises" if s1 == "exc" else "returns " + k1.hex(),
+                                                  "raises" if s2 == "exc" else "returns " + k2.hex()))
+
+
 def enum_deep(tier):
     for d, testnet in ((128, False), (200, True), (255 - 4, False)):
         yield {"seed": bytes([d]) * 16, "testnet": testnet, "paper": bool(d & 1),
@@ -226,6 +266,10 @@ def enum_deep(tier):
 
 def clauses():
     return [
+        Clause("invalid-child-agreement", check_invalid_agreement,
+               "a normal child whose (substituted) PRF output is IL in {n, n+1, 2^256-1, >= n, n - k} or valid: the watch-only "
+               "wallet must raise exactly when the full wallet raises, and return the same public key otherwise",
+               gen=gen_invalid, classes=lambda c: [c["kind"]], n={"quick": 400, "thorough": 20000}, shards={"quick": 8, "thorough": 16}),
         Clause("watch-only", check_case,
                "per case all three public versions of the network; flags (watch_only, network, no BIP85); for each "
                "sub-path: key, chain code, depth, child number, fingerprints, xpub, five addresses vs reference and vs the "
